@@ -209,7 +209,9 @@ def _tag_as_line_statement(markup: TagToken | CommentToken) -> str:
         return markup.name
     if isinstance(markup, BlockCommentToken):
         return f"comment\n{markup.text}endcomment"
-    return f"#{markup.text}"
+    # The text of a line comment runs up to the end of the line or tag. Trailing
+    # whitespace before `%}` would otherwise grow with every round trip.
+    return f"#{markup.text.rstrip()}"
 
 
 @dataclass(kw_only=True, slots=True)
